@@ -46,6 +46,7 @@ def checkApl : P String := do
     | .ok e, some x => if !frameApprox e x then corr := "fail:schedule-model-differs"
     | _, _ => corr := "fail:status"
   let nontriv := axis == 1 && f.nrows ≥ 2 && order != List.range f.nrows
-  pure s!"c17={c17} corr={corr} nontrivial={if nontriv then 1 else 0} st_axis={axis} st_rows={min f.nrows 9} st_fn={tagN}"
+  let c20 := if st == "panic" || st == "hang" then s!"fail:{st}" else "ok"
+  pure s!"c17={c17} c20={c20} corr={corr} nontrivial={if nontriv then 1 else 0} st_axis={axis} st_rows={min f.nrows 9} st_fn={tagN}"
 
 end Goframe.Driver
